@@ -2,7 +2,7 @@
 import re
 from qlib import (AnalysisBroken, strip, isnode, walk, is_call, norm_cmp, var_ref, is_null, const_val, short, call_obj,
                   expr_key, field_name, is_this_field)
-from rules.common import (core_and_neg, tnode, other, cpos, npos, branches_on_call, in_subtree, need_some, straight_after,
+from rules.common import (branches_on_var_null, core_and_neg, tnode, other, cpos, npos, branches_on_call, in_subtree, need_some, straight_after,
                           flatten)
 from rules.c02 import cmp_sides
 
@@ -59,6 +59,7 @@ def run(ctx):
     attrs = enums[:-1]
     r1(ctx, facts, attrs, enums[-1][1])
     r2(ctx, facts, attrs)
+    r2_named_args_and_tags(ctx, facts)
     r3(ctx, facts)
     r4(ctx, facts)
     r4_scan(ctx, facts)
@@ -69,6 +70,7 @@ def run(ctx):
     c16.r3(Renamed(ctx, "C16.R3", "C12.R8"), facts)
     r5(ctx, facts)
     r6(ctx, facts)
+    r6w_offsets_witness(ctx)
     r10_process_id(ctx, facts)
     # a statement replayed from the backtrace ring is formatted from the thread id / thread name / event stored with it (= C18.R3);
     # the reused backend slot hands no named args of an earlier statement to the %(named_args) attribute (= C10.R2)
@@ -542,6 +544,16 @@ def r9_runtime_metadata(ctx, facts):
     ctx.ob("C12.R9d", "_apply_runtime_metadata:message-part-kept", ok_d,
            "the text is cut into message / file / line / function at the separators, the message is the part from offset 0 and the "
            "event's formatted text is shortened to exactly its length", fn=f)
+    # R9e: the length and the offsets were measured on the text as formatted: nothing rewrites that text (the sanitiser lengthens it by
+    # three characters per non-printable byte) before it has been shortened to the message part
+    g = f.g
+    rsp = npos(f, rs)
+    rewr = npos(f, [c for c in f.calls(r"::sanitize_non_printable_chars\b")] +
+                [c for c in f.calls(r"::(append|push_back|insert|replace|clear|assign)$") if any(x["k"] == "MemberExpr" and x.get("mname") == "formatted_msg" for x in walk(call_obj(c)))])
+    ok_e = bool(rsp) and not g.exists_path([g.entry_node], rewr, avoid_nodes=rsp) and not g.exists_path([g.entry_node], [g.exit_node], avoid_nodes=rsp)
+    ctx.ob("C12.R9e", "_apply_runtime_metadata:shortened-before-rewritten", ok_e,
+           "on every path the formatted text is shortened to the message part, and only then rewritten (sanitised): the lengths were "
+           "taken from the text as it was formatted", fn=f)
 
 
 def r5(ctx, facts):
@@ -729,3 +741,162 @@ def r10_process_id(ctx, facts):
     ctx.ob("C12.R10", "BackendWorker:process-id-set-on-every-start-path", from_pid and in_ctor,
            "_process_id is assigned from get_process_id() in every constructor, or on both start paths (run() and "
            "ManualBackendWorker::init()); assigned in: %s, from get_process_id(): %s" % (where, from_pid), fn=ctors[0])
+
+
+def r6w_offsets_witness(ctx):
+    """R6w: compile-time witness for the two offsets every source-location attribute is cut at. MacroMetadata's constructor is
+    constexpr: for every 'path:line' literal with a path over {a . / : -} up to length N (directories, dots, a colon inside the path,
+    leading / trailing / doubled separators, the empty path) and three line numbers, the compiler evaluates the constructor and the
+    table asserts _colon_separator_pos = index of the last ':' and _file_name_pos = index just behind the last '/' of the path."""
+    import itertools, ctw
+    N = 5 if ctx.tier == "quick" else 6
+    rows, meta = [], []
+    for L in range(0, N + 1):
+        for t in itertools.product("a./:-", repeat=L):
+            path = "".join(t)
+            for line in ("7", "120", "65000"):
+                s = path + ":" + line
+                colon = s.rfind(":")
+                fpos = s.rfind("/") + 1          # 0 when there is no separator; the line part has none
+                rows.append('{"%s", %d, %d}' % (s, colon, fpos))
+                meta.append(s)
+    bad = ctw.static_table("mm-offsets-%d" % N,
+                           '#include "quill/core/MacroMetadata.h"\nusing M = quill::MacroMetadata;\n'
+                           'constexpr M mk(char const* s) { return M{s, "", "", nullptr, quill::LogLevel::Info, M::Event::Log}; }',
+                           "char const* s; unsigned colon; unsigned file;", rows,
+                           "mk(r.s)._colon_separator_pos == r.colon && mk(r.s)._file_name_pos == r.file")
+    ctx.units.add(("mm-offsets-witness(len<=%d)" % N, "A"))
+    ctx.floor("C12.R6w", "source-location literals in the witness table", len(rows), 5000)
+    ctx.ob("C12.R6w", "MacroMetadata:offsets-of-path:line", not bad,
+           "compile-time witness over %d 'path:line' literals (paths of length <= %d over 'a . / : -', three line numbers): the colon offset "
+           "is the index of the last ':' and the file-name offset the index behind the last '/'%s"
+           % (len(rows), N, ("; first mismatches: " + "; ".join("'%s'" % meta[i] for i in bad[:4])) if bad else ""), loc="core/MacroMetadata.h")
+
+
+def r2_named_args_and_tags(ctx, facts):
+    """R2i: the text of %(named_args) is 'key: value' for every pair of the statement's list, in list order, joined by ', ': the loop
+    starts at 0 and runs while i < size(), appends [i].first, ': ', [i].second in that order on every iteration and ', ' exactly when the
+    pair is not the last; it runs exactly when the list exists. R2j: %(tags) reads the tags only when the statement has some, and is
+    empty otherwise. R1f: the rewriter starts with every attribute mapped to the spare last slot, the first attribute found gets slot 0
+    and the names are registered from index 0 on, one index per name."""
+    f = facts.need(PF + "format", "A")[0]
+    g = f.g
+    na = f.rec["params"][8]["did"]
+    buf = "_formatted_named_args_buffer"
+    apps = [c for c in f.calls(r"::append\b") if is_this_field(call_obj(c), buf)]
+    loops = [n for n in f.walk() if n["k"] in ("ForStmt", "WhileStmt", "CXXForRangeStmt") and any(in_subtree(c, n.get("body")) for c in apps)]
+    if len(loops) != 1:
+        raise AnalysisBroken("PatternFormatter::format: the loop that builds the named-args text was not recognised (%d candidates)" % len(loops))
+    lp = loops[0]
+
+    def what(c):
+        a = c["args"][0]
+        lit = [x.get("str") for x in walk(a) if x["k"] == "StringLiteral"]
+        if lit:
+            return "'%s'" % lit[0]
+        mem = [x.get("mname") for x in walk(a) if x["k"] == "MemberExpr" and x.get("mname") in ("first", "second")]
+        return mem[0] if len(mem) == 1 and any(var_ref(x) == na or x.get("name") in ("key", "value") for x in walk(a) if x["k"] == "DeclRefExpr") else (mem[0] if mem else "?")
+    body_apps = [c for c in apps if in_subtree(c, lp.get("body"))]
+    seq = [what(c) for c in body_apps]
+    uncond = [c for c in body_apps if not any(a["k"] == "IfStmt" and in_subtree(a, lp.get("body")) for a in f.ancestors(c))]
+    cond = [c for c in body_apps if c not in uncond]
+    order_ok = [what(c) for c in uncond] == ["first", "': '", "second"] and [what(c) for c in cond] == ["', '"]
+    # loop bounds (index form) or range-for over the list
+    if lp["k"] == "CXXForRangeStmt":
+        bounds_ok = any(var_ref(x) == na for x in walk(lp.get("range")))
+        idx = None
+    else:
+        idx = None
+        for d in walk(lp.get("init")) if lp.get("init") is not None else []:
+            if d.get("k") == "Var" and const_val(d.get("init")) == 0:
+                idx = d["did"]
+        cs = cmp_sides(lp.get("cond")) if lp.get("cond") is not None else None
+        bounds_ok = idx is not None and cs is not None and cs[0] == "<" and var_ref(strip(cs[1], casts=True)) == idx and \
+            any(is_call(x, r"std::vector<.*>::size$") and var_ref(call_obj(x)) == na for x in walk(cs[2])) and \
+            not any(x["k"] == "BinaryOperator" and x["op"] in ("+", "-") for x in walk(cs[2])) and \
+            all(any(var_ref(y) == idx for y in walk(x["args"][1])) for c in uncond for x in walk(c["args"][0])
+                if x["k"] == "CXXOperatorCallExpr" and short(x.get("callee") or "").endswith("operator[]"))
+    # separator guard: 'not the last pair'
+    sep_ok = False
+    for c in cond:
+        ifs = [a for a in f.ancestors(c) if a["k"] == "IfStmt" and in_subtree(a, lp.get("body"))]
+        if len(ifs) == 1 and in_subtree(c, ifs[0].get("then")):
+            cd = ifs[0]["cond"]
+            nc = norm_cmp(cd)
+            cs = cmp_sides(cd)
+            has_size = any(is_call(x, r"std::vector<.*>::size$") and var_ref(call_obj(x)) == na for x in walk(cd))
+            minus1 = any(x["k"] == "BinaryOperator" and x["op"] == "-" and const_val(x["rhs"]) == 1 and any(is_call(y, r"::size$") for y in walk(x["lhs"])) for x in walk(cd))
+            plus1 = any(x["k"] == "BinaryOperator" and x["op"] == "+" and 1 in (const_val(x["rhs"]), const_val(x["lhs"])) and
+                        any(var_ref(y) == idx for y in walk(x)) for x in walk(cd))
+            # i != size - 1 | i < size - 1 | i + 1 != size | i + 1 < size
+            sep_ok = has_size and ((nc is not None and nc[0] == "!=" and (minus1 != plus1)) or (cs is not None and cs[0] == "<" and (minus1 != plus1) and
+                                   any(var_ref(y) == idx for y in walk(cs[1]))))
+    nulls = branches_on_var_null(f, na)
+    heads = g.positions(lp.get("cond")) if lp.get("cond") is not None else (g.positions(lp.get("range")) if lp.get("range") is not None else [])
+    sv = [c for c in f.calls(r"PatternFormatter::_set_arg_val<") if any(is_this_field(x, buf) for x in walk(c))]
+    svp = npos(f, sv)
+    only_when_present = bool(nulls) and bool(heads) and not g.exists_path([g.entry_node], heads, avoid_edges=[(b, other(l)) for (b, l) in nulls]) and \
+        all(not g.exists_path([y for (y, l2) in g.succ.get(tnode(g, b), ()) if l2 == other(l)], svp, avoid_nodes=heads) for (b, l) in nulls)
+    after = bool(svp) and not g.exists_path(svp, npos(f, apps))
+    ctx.ob("C12.R2i", "format:named-args-text", order_ok and bounds_ok and sep_ok and only_when_present and after,
+           "every pair of the list, from the first (index 0) to the last (i < size()), is appended as key, ': ', value in that order (%s, "
+           "bounds %s), ', ' exactly when it is not the last pair (%s); the loop runs exactly when the statement has a list (%s) and the "
+           "attribute is set from the finished buffer (%s)" % (seq, bounds_ok, sep_ok, only_when_present, after), fn=f)
+    # tags
+    tagsets = [c for c in f.calls(r"PatternFormatter::_set_arg_val<") if targ_index(c["callee"], "_set_arg_val") is not None and
+               any(is_call(x, r"MacroMetadata::tags$") for x in walk(c))]
+    tedges = []
+    for bid, b in g.blocks.items():
+        c = g.term_cond(bid)
+        if c is None:
+            continue
+        core, neg = core_and_neg(c)
+        cs_ = strip(core, casts=True)
+        if is_call(cs_, r"MacroMetadata::tags$"):
+            tedges.append((bid, "F" if neg else "T"))      # label of 'has tags'
+        else:
+            from rules.common import eq_kind
+            k = eq_kind(c)
+            if k and any(is_call(strip(s_, casts=True), r"MacroMetadata::tags$") for s_ in k[1:]) and any(is_null(s_) for s_ in k[1:]):
+                tedges.append((bid, "F" if k[0] == "==" else "T"))
+    tp = npos(f, tagsets)
+    ok_t = bool(tagsets) and bool(tedges) and not g.exists_path([g.entry_node], tp, avoid_edges=tedges)
+    ctx.ob("C12.R2j", "format:tags-read-only-when-present", ok_t,
+           "the tags pointer is turned into text only on the 'statement has tags' outcome (a statement without tags has a null pointer)", fn=f)
+    # the rewriter's starting state
+    for gfn in facts.need(PF + "_generate_fmt_format_string", "A")[:1]:
+        fills = [c for c in gfn.calls(r"std::array<.*>::fill$")]
+        en = facts.enum("quill::PatternFormatter::Attribute", "A")
+        nr = dict(en["enumerators"]).get("ATTR_NR_ITEMS") if en else None
+        fill_ok = len(fills) == 1 and nr is not None and const_val(fills[0]["args"][0]) == nr - 1
+        scan = npos(gfn, gfn.calls(r"basic_string<.*>::find_first_of$"))
+        fill_first = fill_ok and bool(scan) and all(gfn.g.dominates(npos(gfn, fills), p) for p in scan)
+        idxv = [d for d in gfn.var_decls().values() if d.get("name") == "arg_idx" or ("uint8_t" in (d.get("ty") or "") and const_val(d.get("init")) is not None)]
+        idx0 = len(idxv) == 1 and const_val(idxv[0].get("init")) == 0
+        st = gfn.calls(r"PatternFormatter::_store_named_args<")
+        st0 = bool(st) and all(re.search(r"_store_named_args<0(UL)?, 0(UL)?,", c["callee"]) for c in st)
+        ctx.ob("C12.R1f", "_generate_fmt_format_string:starting-state", fill_first and idx0 and st0,
+               "before the scan every attribute is mapped to the spare last slot (fill(ATTR_NR_ITEMS - 1): %s), the slot counter starts at 0 "
+               "(%s) and the names are registered from position 0 / index 0 (%s) — an attribute that is not in the pattern but always set "
+               "(the message) must not land in slot 0" % (fill_first, idx0, st0), fn=gfn)
+    recs = [x for x in facts.fns if x.config == "A" and re.search(r"PatternFormatter::_store_named_args<\d+(UL)?, \d+(UL)?, ", x.name)]
+    bad = []
+    for x in recs:
+        m = re.search(r"_store_named_args<(\d+)(?:UL)?, (\d+)(?:UL)?, ", x.name)
+        i_, n_ = int(m.group(1)), int(m.group(2))
+        for c in x.calls(r"PatternFormatter::_store_named_args<"):
+            m2 = re.search(r"_store_named_args<(\d+)(?:UL)?, (\d+)(?:UL)?[,>]", c["callee"])
+            if m2 and (int(m2.group(1)), int(m2.group(2))) != (i_ + 1, n_ + 1):
+                bad.append("%s -> %s" % (m.group(0), m2.group(0)))
+        asg = [n for n in x.walk() if n["k"] in ("CXXOperatorCallExpr", "BinaryOperator") and
+               ((n["k"] == "CXXOperatorCallExpr" and short(n.get("callee") or "").endswith("operator=")) or n.get("op") == "=")]
+        sub = [y for n in asg for y in walk(n["args"][0] if n["k"] == "CXXOperatorCallExpr" else n["lhs"])
+               if y["k"] == "CXXOperatorCallExpr" and short(y.get("callee") or "").endswith("operator[]")]
+        if not sub or any(const_val(y["args"][1]) != n_ for y in sub):
+            bad.append("%s stores at another position than %d" % (m.group(0), n_))
+        ids = [const_val(y) for n in asg for y in walk(n["args"][1] if n["k"] == "CXXOperatorCallExpr" else n["rhs"]) if y["k"] in ("IntegerLiteral", "SubstNonTypeTemplateParmExpr", "ImplicitCastExpr") and const_val(y) is not None]
+        if i_ not in ids:
+            bad.append("%s registers another index than %d" % (m.group(0), i_))
+    ctx.floor("C12.R1g", "instantiations of _store_named_args", len(recs), 10)
+    ctx.ob("C12.R1g", "_store_named_args:one-index-per-name", not bad,
+           "instantiation <I, N> stores {name, I} at position N and continues with <I + 1, N + 1> (%s)" % ("; ".join(bad[:4]) or "ok"))
